@@ -326,6 +326,163 @@ def extra_checks(pid, tier, seed):
         asyncio.run(go())
         if fails:
             break
+    if not fails:
+        fails = _noninterference(tier, seed)
+    return fails
+
+
+def _noninterference(tier, seed):
+    """C11 "separate pools are independent" as the theorem states it (PMulti.wrun_proj: a pool's
+    state depends only on the operations addressed to it), checked on the implementation as a
+    differential: one script of operations is run on pool A alone, then again on a fresh pool A
+    while a second pool B of either class - with equal task ids, group names and timing - is
+    driven through a script of its own in the same loop, between A's operations.  Everything A
+    lets one see (events inside workers and callbacks with their ids, counters, group registers,
+    results and errors of every operation) must be identical in the two runs.  B's operations are
+    synchronous or started as tasks, so the number of loop iterations A's script takes is the same
+    in both runs."""
+    import asyncio
+    import lockstep
+    lockstep._init_worker()
+    from asyncio_taskpool.pool import SimpleTaskPool, TaskPool
+    fails = []
+
+    def script(rng, n):
+        ops = []
+        for _ in range(n):
+            x = rng.random()
+            if x < 0.3:
+                ops.append(("spawn", rng.randint(1, 3), rng.choice([0, 1, 2, 3]), rng.random() < 0.3))
+            elif x < 0.5:
+                ops.append(("cancel", [rng.randrange(0, 8) for _ in range(rng.randint(1, 2))]))
+            elif x < 0.58:
+                ops.append(("cancel_group", rng.randrange(0, 4)))
+            elif x < 0.62:
+                ops.append(("cancel_all",))
+            elif x < 0.72:
+                ops.append(("flush",))
+            elif x < 0.78:
+                ops.append(("lock",) if rng.random() < 0.5 else ("unlock",))
+            else:
+                ops.append(("obs",))
+            ops.append(("yield", rng.choice([0, 0, 1, 1, 2, 3])))
+        return ops
+
+    async def run(simple_a, ops_a, other):
+        """other = None (solo) or (simple_b, ops_b)"""
+        log = {"A": [], "B": []}
+
+        def mk(tag):
+            async def work(susp):
+                me = asyncio.current_task().get_name().rsplit("-", 1)[1]
+                log[tag].append(("start", me))
+                try:
+                    for _ in range(susp):
+                        await asyncio.sleep(0)
+                except asyncio.CancelledError:
+                    log[tag].append(("cancelled", me))
+                    raise
+                log[tag].append(("end", me))
+
+            def ecb(i):
+                log[tag].append(("ecb", i))
+
+            async def ccb(i):
+                log[tag].append(("ccb", i))
+                await asyncio.sleep(0)
+                log[tag].append(("ccb-done", i))
+            return work, ecb, ccb
+
+        def new(tag, simple):
+            work, ecb, ccb = mk(tag)
+            if simple:
+                return SimpleTaskPool(work, args=(2,), end_callback=ecb, cancel_callback=ccb, pool_size=3), work, ecb, ccb
+            return TaskPool(pool_size=3), work, ecb, ccb
+
+        def obs(p):
+            groups = {}
+            for g in list(getattr(p, "_task_groups", {})):
+                try:
+                    groups[g] = sorted(p.get_group_ids(g))
+                except Exception as e:
+                    groups[g] = type(e).__name__
+            return (p.num_running, p.num_cancelled, p.num_ended, p.is_full, p.is_locked, sorted(groups.items()))
+
+        bg = []
+
+        async def do(tag, pool_t, op, awaited):
+            p, work, ecb, ccb = pool_t
+            simple = isinstance(p, SimpleTaskPool)
+            try:
+                if op[0] == "spawn":
+                    if simple:
+                        r = p.start(op[1])
+                    elif op[3]:
+                        r = p.map(work, [op[2]] * op[1], num_concurrent=2, end_callback=ecb, cancel_callback=ccb)
+                    else:
+                        r = p.apply(work, args=(op[2],), num=op[1], end_callback=ecb, cancel_callback=ccb)
+                elif op[0] == "cancel":
+                    r = p.cancel(*op[1])
+                elif op[0] == "cancel_group":
+                    names = sorted(getattr(p, "_task_groups", {}))
+                    r = p.cancel_group(names[op[1] % len(names)] if names else "nope")
+                elif op[0] == "cancel_all":
+                    r = p.cancel_all()
+                elif op[0] == "flush":
+                    if awaited:
+                        r = await p.flush(return_exceptions=True)
+                    else:
+                        bg.append(asyncio.ensure_future(p.flush(return_exceptions=True)))
+                        r = None
+                elif op[0] == "lock":
+                    r = p.lock()
+                elif op[0] == "unlock":
+                    r = p.unlock()
+                else:
+                    r = None
+                res = repr(r)
+            except Exception as e:
+                res = type(e).__name__
+            log[tag].append(("op", op[0], res, obs(p)))
+
+        A = new("A", simple_a)
+        B = new("B", other[0]) if other else None
+        ops_b = list(other[1]) if other else []
+        for op in ops_a:
+            if op[0] == "yield":
+                for _ in range(op[1]):
+                    await asyncio.sleep(0)
+                continue
+            await do("A", A, op, True)
+            # B's operations between A's: synchronous, no extra loop iteration for A's script
+            while ops_b and ops_b[0][0] != "yield":
+                await do("B", B, ops_b.pop(0), False)
+            if ops_b:
+                ops_b.pop(0)
+        await A[0].gather_and_close(return_exceptions=True)
+        log["A"].append(("final", obs(A[0])))
+        if B:
+            for t in bg:
+                t.cancel()
+            await B[0].gather_and_close(return_exceptions=True)
+        return log["A"]
+
+    rounds = 40 if tier == "quick" else 400
+    for k in range(rounds):
+        rng = random.Random(seed * 977 + k)
+        simple_a, simple_b = rng.random() < 0.3, rng.random() < 0.3
+        ops_a = script(rng, rng.randint(4, 14))
+        # B mirrors A's script in half of the rounds (equal ids / names at equal times), else its own
+        ops_b = list(ops_a) if rng.random() < 0.5 else script(rng, rng.randint(4, 14))
+        solo = asyncio.run(run(simple_a, ops_a, None))
+        duo = asyncio.run(run(simple_a, ops_a, (simple_b, ops_b)))
+        if solo != duo:
+            i = next((j for j, (x, y) in enumerate(zip(solo, duo)) if x != y), min(len(solo), len(duo)))
+            fails.append({"what": "a pool behaves differently when a second pool is used in the same loop "
+                                  "(separate pools must be independent)",
+                          "round": k, "simple_a": simple_a, "simple_b": simple_b, "ops_a": ops_a, "ops_b": ops_b,
+                          "first_difference": {"index": i, "alone": repr(solo[i:i + 2]), "with_other_pool": repr(duo[i:i + 2])}})
+            break
     return fails
 
 
